@@ -96,6 +96,8 @@ def run(tier, seed, replay=None):
         o = O.make_impl(spec)
         dist['pardim'][len(spec['bases'])] = dist['pardim'].get(len(spec['bases']), 0) + 1
         hist = []
+        siblings = []      # other results of earlier steps (remaining split pieces, the object a section/clone/... was taken
+                           # from): operations on the followed object must leave them structurally intact
         for stepno in range(hist_len):
             pd = o.pardim
             op = rng.choice(OPS)
@@ -133,7 +135,12 @@ def run(tier, seed, replay=None):
                     x = b.start() + (b.end() - b.start()) * rng.randint(1, 63) / 64.0
                     args = [x, d]
                     res = o.split(x, d)
-                    o = res if not isinstance(res, list) else rng.choice(res)
+                    if isinstance(res, list):
+                        pick = rng.randrange(len(res))
+                        siblings = (siblings + [r_ for i_, r_ in enumerate(res) if i_ != pick])[-4:]
+                        o = res[pick]
+                    else:
+                        o = res
                 elif op == 'lower_periodic':
                     if b.periodic < 0:
                         continue
@@ -143,6 +150,7 @@ def run(tier, seed, replay=None):
                     if b.periodic >= 0 or b.order < 3 or b.num_functions() < 2 * b.order or b.knots[0] != b.start():
                         continue
                     args = [rng.randint(0, b.order - 2), d]
+                    siblings = (siblings + [o])[-4:]
                     o = o.make_periodic(args[0], d)
                 elif op == 'translate':
                     o.translate([rng.randint(-5, 5) / 2.0 for _ in range(o.dimension)])
@@ -167,8 +175,10 @@ def run(tier, seed, replay=None):
                         continue
                     sel = [None] * pd
                     sel[d] = rng.choice([0, -1])
+                    siblings = (siblings + [o])[-4:]
                     o = o.section(*sel)
                 elif op == 'clone':
+                    siblings = (siblings + [o])[-4:]
                     o = o.clone()
                 elif op == 'infix':
                     o = (o + [1.0] * o.dimension) * 2.0
@@ -198,6 +208,9 @@ def run(tier, seed, replay=None):
                 V.failure(dict(case, what='non-finite numbers in the object after %s' % op))
                 break
             complaints = structural(o, np, tolf)
+            for si_, sib in enumerate(siblings):
+                complaints += ['an object produced earlier in the history (sibling %d) is no longer well formed: %s' % (si_, c_)
+                               for c_ in structural(sib, np, tolf)]
             for cpl in complaints:
                 V.failure(dict(case, what='after %s: %s' % (op, cpl)))
             if complaints:
